@@ -322,6 +322,32 @@ def fn_history(lib, rng, val, count):
                 pass
 
 
+def big_elevate(lib, rng, val, count):
+    """C06 on tall instances: multi-span curves elevated to degree 6..10 (beyond every exhaustive bound)"""
+    cases = [(3, 4), (4, 3), (5, 2), (6, 1), (2, 5), (3, 5), (4, 4), (1, 6), (5, 5), (2, 2), (3, 1)]
+    for k in range(max(count, len(cases))):
+        p, t = cases[k % len(cases)]
+        inner = [Fraction(0)] * rng.randint(1, min(p, 2)) + ([Fraction(3, 2)] if rng.random() < 0.5 else [])
+        U = [Fraction(-1)] * (p + 1) + inner + [Fraction(2)] * (p + 1)
+        c = lib.Curve(U)
+        c.ctrlpoints = [Fraction(rng.randint(-4, 4), rng.choice([1, 2])) for _ in range(c.npts)]
+        if k % 3 == 2:
+            c.weights = [Fraction(1 + (i % 3)) for i in range(c.npts)]
+        pre = project_curve(c)
+        try:
+            if k % 2:
+                c.degree = p + t
+            else:
+                c.degree_increase(t)
+            post = project_curve(c)
+        except Exception as e:
+            val.add({"name": "DriverError", "op": f"degree_increase({t}) at degree {p}", "error": repr(e)}, c=pre)
+            continue
+        d = {"U": post["U"], "P": [x if core.fits32(x) else [0, 0] for x in post["P"]],
+             "W": [x if core.fits32(x) else [0, 0] for x in post["W"]]}
+        val.add({"name": "ElevObs", "times": t}, c=pre, d=d, dv=sample_values(pre, post, c))
+
+
 def big_arith(lib, rng, val, count):
     """C08 / C13 on larger instances: A op B with observed values, A == B against function equality"""
     from .drivers import sample_values as _sv  # noqa
